@@ -535,3 +535,33 @@ def translation_not_memoised(chk, rid):
          'enclosing query, its alias.column references name tables that are not in '
          'scope here (or the wrong ones)' % (bad[1] if bad else ''), fi=tr.fi,
          node=bad[0] if bad else None)
+
+
+def entangle_attached(chk, rid):
+  from sa.pathrules import FnView
+  dc = FnView(chk.repo, 'dialects.DecorateCombineRule')
+  # the `x in [0]` conjunct has to end up IN the rule that is returned: the
+  # list it is appended to is reached from `rule` by subscripts only - a
+  # `.get(key, <fresh default>)` on the way hands out a list the rule does not
+  # hold when the combine has no body
+  detached = None
+  for n, c in dc.all_calls():
+    if call_tail(c) == 'append' and 'inclusion' in dc.deep_text(dc.expand(c, 3)):
+      recv = dc.expand(c.func.value, 4) if isinstance(c.func, ast.Attribute) else None
+      for y in ast.walk(recv) if recv is not None else ():
+        if isinstance(y, ast.Call) and call_tail(y) == 'get' and len(y.args) == 2 and \
+            not (isinstance(y.args[1], ast.Constant) and y.args[1].value is None):
+          # unless the local holding it is stored back into the rule
+          names = {t_.id for t_ in ast.walk(c.func.value) if isinstance(t_, ast.Name)}
+          stored = any(isinstance(st_, ast.Assign) and isinstance(st_.targets[0], ast.Subscript)
+                       and isinstance(st_.value, ast.Name) and st_.value.id in names
+                       for st_ in walk_local(dc.fi.node))
+          if not stored:
+            detached = c
+  chk.ob(rid, detached is None, None,
+         'the entangling conjunct is appended to the body the returned rule holds',
+         '`%s` appends to a conjunction obtained with .get(key, default): for a combine '
+         'without a body the default is a fresh object that never becomes part of the rule, '
+         'so MagicalEntangle refers to a variable nothing binds (compilation stops with an '
+         'internal error)' % (norm(detached, 70) if detached is not None else ''),
+         fi=dc.fi, node=detached)
